@@ -11,7 +11,7 @@ import sys
 
 HERE = os.path.dirname(os.path.abspath(__file__))
 VERIF = os.path.dirname(HERE)
-REPO = '/repo'
+REPO = os.environ.get('FCAPY_REPO', '/repo')
 BASE = os.path.join(HERE, 'anchor_hashes.json')
 
 
